@@ -12,44 +12,99 @@ RULES = ['/', '/a', '/a/b', '/a/:x', '/a/<x:int>', '/<p:path>', '/u/<x>/e', '/a/
          '/a/<z:int>', '/u/<k>/e', '/<q.path()>']
 
 
+PATH_OF = {':x': 'q', ':y': 'q', '<x:int>': '12', '<z:int>': '12', '<p:path>': 'zz/y', '<q.path()>': 'zz/y',
+           '<x>': 'm', '<k>': 'm', '<x:re:[a-z]+>': 'abc'}
+
+
+def path_of(rule):
+    p = rule
+    for k, v in PATH_OF.items():
+        p = p.replace(k, v)
+    return p
+
+
+def respell(rng, m):
+    k = rng.random()
+    if k < .55:
+        return m
+    if k < .8:
+        return m.lower()
+    return m.capitalize()
+
+
 def gen_history(rng):
-    """1-4 routes with random method tables, re-registration with and without overwrite,
-    per-method removal; then every kind of verb on matching and non-matching paths"""
+    """1-3 routes; a sequence of edits (add on a new or existing route in varying method order and
+    spelling, overwrite=True, adds that will be rejected, remove_method of some / all / absent
+    methods) and after EVERY edit a probe round: each route (and sometimes a path that matches
+    nothing) x several verbs incl. HEAD, an unregistered verb and a registered one, through
+    Ombott.__call__ and RadiRouter.resolve.  So probe->remove->probe, probe->overwrite->probe and
+    probe->rejected add->probe on one route occur in almost every history."""
     ops = []
-    n_rules = rng.randint(1, 4)
-    rules = rng.sample(RULES, n_rules)
-    add_idx = []
-    for _ in range(rng.randint(1, 9)):
+    rules = rng.sample(RULES, rng.randint(1, 3))
+    paths = [path_of(r) for r in rules]
+    shadow = {}                 # rule -> set of upper-case names believed registered (generator's guess)
+    adds = {}                   # rule -> op indices of adds on it
+    n_edits = rng.randint(3, 8)
+    for step in range(n_edits):
         k = rng.random()
-        if k < .75 or not add_idx:
-            rule = rng.choice(rules)
-            ms = rng.sample(REG_NAMES, rng.choice([1, 1, 1, 2, 2, 3, 5]))
+        rule = rng.choice(rules)
+        reg = shadow.setdefault(rule, set())
+        if k < .45 or not adds.get(rule):
+            pool = [m for m in VERBS + ['ANY', 'FOO'] if m not in reg] or VERBS
+            ms = rng.sample(pool, min(len(pool), rng.choice([1, 1, 2, 3])))
+            ow = rng.random() < .15
+            kind = 'add'
+        elif k < .6:
+            # will be rejected (some name already there) unless overwrite
+            ms = rng.sample(sorted(reg), 1) if reg else ['GET']
+            ms += rng.sample(VERBS, rng.choice([0, 1]))
+            ow = False
+            kind = 'clash'
+        elif k < .72:
+            ms = (rng.sample(sorted(reg), min(len(reg), rng.choice([1, 2]))) if reg else ['GET']) + \
+                rng.sample(VERBS, rng.choice([0, 1]))
+            ow = True
+            kind = 'overwrite'
+        else:
+            kind = 'remove'
+        if kind != 'remove':
+            rng.shuffle(ms)
+            ms = [respell(rng, m) for m in ms]
+            arg = ms[0] if (len(ms) == 1 and rng.random() < .3) else ms
+            adds.setdefault(rule, []).append(len(ops))
+            ops.append(['A', rule, arg, None, ow])
+            up = {m.upper() for m in ms}
+            if ow or not (up & reg):
+                reg |= up
+        else:
+            i = rng.choice(adds[rule])
+            r = rng.random()
+            if r < .25 and reg:
+                ms = sorted(reg)                      # everything: the route stays, Allow becomes empty
+            elif r < .8 and reg:
+                ms = rng.sample(sorted(reg), min(len(reg), rng.choice([1, 1, 2])))
+            else:
+                ms = [rng.choice(VERBS + ['BAR'])]
             if rng.random() < .15:
-                ms = ms[0]
-            add_idx.append(len(ops))
-            ops.append(['A', rule, ms, None, rng.random() < .3])
-        else:
-            i = rng.choice(add_idx)
-            ms = rng.sample(REG_NAMES, rng.choice([1, 1, 2]))
-            if rng.random() < .5:
-                am = ops[i][2]
-                ms = [rng.choice([am] if isinstance(am, str) else am).upper()] + ms[1:]
+                ms = [m.lower() for m in ms]          # remove_method takes names as they are: no effect
+            else:
+                reg -= set(ms)
             ops.append(['D', i, ms])
-    paths = []
-    for r in rules:
-        p = (r.replace(':x', 'q').replace(':y', 'q').replace('<x:int>', '12').replace('<z:int>', '12')
-             .replace('<p:path>', 'zz/y').replace('<q.path()>', 'zz/y').replace('<x>', 'm').replace('<k>', 'm')
-             .replace('<x:re:[a-z]+>', 'abc'))
-        paths.append(p)
-    paths += ['/nope/x', '/a/', '/a/b/c/d', '']
-    for _ in range(rng.randint(6, 16)):
-        v = rng.choice(REQ_VERBS)
-        p = rng.choice(paths)
-        if rng.random() < .6:
-            ops.append(['W', v, p])
-        else:
-            vu = v.upper()
-            ops.append(['R', p, [vu] + (['GET'] if vu == 'HEAD' else []) + ['ANY']])
+        # probe round
+        targets = list(paths)
+        if rng.random() < .3:
+            targets.append(rng.choice(['/nope/x', '/a/', '/a/b/c/d', '']))
+        for p in targets:
+            verbs = ['HEAD', rng.choice(REQ_VERBS)]
+            if reg:
+                verbs.append(respell(rng, rng.choice(sorted(reg))))
+            # the unregistered verb always (405 with the current Allow unless ANY is there)
+            for v in ['BAR'] + rng.sample(verbs, rng.choice([1, 2, len(verbs)])):
+                if rng.random() < .55:
+                    ops.append(['W', v, p])
+                else:
+                    vu = v.upper()
+                    ops.append(['R', p, [vu] + (['GET'] if vu == 'HEAD' else []) + ['ANY']])
     return ops
 
 
@@ -65,10 +120,11 @@ class C02(Check):
                   'tree lookup finds no route, for every history of add/overwrite/rejected add/remove_method; tied '
                   'to the code by differential runs through RadiRouter.resolve and Ombott.__call__.')
     level_note_extra = 'str.upper is a parameter of the theorems (ASCII in the correspondence run)'
-    rule = ('1-4 routes from a 13-rule pool with random method tables over the seven verbs, ANY, lower/mixed case and '
-            'a made-up verb; re-registration with/without overwrite, remove_method; then 6-16 requests (every verb '
-            'spelling x matching / non-matching paths) through Ombott.__call__ (status, Allow, handler, method) '
-            'and RadiRouter.resolve; non-trivial = the history contains a 405 or a fallback hit')
+    rule = ('1-3 routes from a 13-rule pool; 3-8 edits (add in varying method order and spelling over the seven verbs, '
+            'ANY and a made-up verb; clashing adds; overwrite=True; remove_method of some/all/absent names) with a '
+            'probe round after EVERY edit: every route (and non-matching paths) x HEAD, an unregistered verb, '
+            'registered and random verbs through Ombott.__call__ (status, Allow, handler, method) and '
+            'RadiRouter.resolve; non-trivial = the history contains a 405 or a fallback hit')
     assumptions = ['str.upper on method names is a parameter of the model (ASCII in the correspondence run)',
                    'which route a path selects is C01\'s business (404/405 split is stated relative to the tree lookup)']
 
@@ -76,7 +132,7 @@ class C02(Check):
         self.stats = {}
 
     def budget(self, tier, escalated):
-        n = 700 if tier == 'quick' else 20000
+        n = 700 if tier == "quick" else 30000
         return n * (3 if escalated and tier == 'quick' else 1)
 
     def nontrivial(self, sample):
@@ -96,6 +152,23 @@ class C02(Check):
                 self._bump('hang-skipped')
                 continue
             interesting = False
+            # density of edit sequences seen from one path: 405, then an edit, then 405 again
+            last = {}            # path -> (kind of the last edit since the last 405 on it, seen a 405 before)
+            for op, (o, ans) in zip(ops, zip(run.ops, run.answers)):
+                if op[0] in ('A', 'D'):
+                    kind = ('remove' if op[0] == 'D' else 'rejected-add' if ans.startswith('err:') else
+                            'overwrite' if op[4] else 'add')
+                    for pth in list(last):
+                        if last[pth][1]:
+                            last[pth] = (kind, True)
+                elif op[0] in ('R', 'W') and ans.startswith('405'):
+                    pth = op[2] if op[0] == 'W' else op[1]
+                    k = last.get(pth)
+                    if k and k[0]:
+                        self._bump('seq-405-%s-405' % k[0])
+                    if ans == '405:-':
+                        self._bump('405-empty-allow')
+                    last[pth] = (None, True)
             for op, ans in zip(run.ops, run.answers):
                 self._bump(op[0] + ':' + ans.split(':')[0])
                 if ans.startswith('405'):
@@ -150,6 +223,8 @@ class C02(Check):
                     for m in op[2]:
                         table[pat_of[op[1]]].pop(m, None)
             elif op[0] in ('R', 'W'):
+                run.ops.append('N')          # keeps Runner positions (= handler ids) equal to op positions
+                run.answers.append('skip')
                 if op[0] == 'R':
                     path, cands = op[1], list(op[2])
                     if not cands:
